@@ -557,4 +557,150 @@ mod verif_kani_wb {
         std::mem::forget(next);
         std::mem::forget(pred);
     }
+
+    // ------------------------------------------------------------------ retirement protocol (process_deletions)
+    static mut SUCC_OK: bool = true;
+    static mut RETIRE_SEEN_STATUS: u32 = 0;
+
+    fn stub_successor_ok(_r: &Record) -> bool {
+        unsafe { SUCC_OK }
+    }
+
+    fn retirement_case(sector: u64, already_marked: bool, readers: bool, succ_ok: bool, scrub_ok: bool) {
+        reset();
+        unsafe {
+            SUCC_OK = succ_ok;
+            SCRUB_OK = scrub_ok;
+        }
+        let rec = Arc::new(Record::new(vec![b'k', b'2'], vec![1, 2, 3], 7));
+        rec.sector.store(sector, Ordering::Release);
+        let pin = if readers { rec.acquire_extent() } else { None };
+        let entry = WriteEntry::new(Operation::Delete, Arc::clone(&rec));
+        if already_marked {
+            entry.work_status.store(DELETE_MARKER_DURABLE, Ordering::Release);
+        }
+        let stats = Arc::new(Statistics::new());
+        stats.disk_usage.store(1 << 40, Ordering::Relaxed);
+        let fs = Arc::new(RwLock::new(FreeSpaceManager::new()));
+        let io = Arc::new(RwLock::new(mk_io(1, 0, false)));
+        let format: &dyn RecordFormat = &FormatV2;
+        let mut retries: Vec<WriteEntry> = Vec::new();
+        let mut released: u64 = 0;
+        let r = process_deletions(&io, &fs, &stats, format, vec![entry], &mut retries, &mut released);
+        let scrubs = unsafe { SCRUB_CALLS };
+        let releases = unsafe { R_N };
+        let retired_bit = rec.extent_state_for_harness() & (1u32 << 31) != 0;
+        assert!(releases <= 1 && scrubs <= 1, "at most one marker transaction and one hand-back per pass");
+        if sector == 0 {
+            assert!(scrubs == 0 && releases == 0 && retries.is_empty() && r.is_ok(), "a generation that never reached the disk owns no blocks");
+        } else if !already_marked && !succ_ok {
+            assert!(scrubs == 0 && releases == 0 && retries.len() == 1 && !retired_bit, "kept (and still readable) while no successor is durable");
+        } else if !already_marked && readers {
+            assert!(scrubs == 0 && releases == 0 && retries.len() == 1 && retired_bit, "pinned by a reader: retired for new readers, markers and hand-back wait");
+        } else {
+            if !already_marked {
+                assert!(scrubs == 1 && unsafe { SCRUB_FIRST } == sector && unsafe { SCRUB_LEN } == 1, "markers for exactly this extent, through the journaled retirement");
+            } else {
+                assert!(scrubs == 0, "markers already durable: never written twice");
+            }
+            if !already_marked && !scrub_ok {
+                assert!(r.is_err() && releases == 0 && retries.len() == 1, "failed marker write: nothing handed back, entry kept");
+                assert!(retries[0].work_status.load(Ordering::Acquire) != DELETE_MARKER_DURABLE);
+            } else if readers {
+                assert!(releases == 0 && retries.len() == 1, "a reader still pins the extent: not handed back");
+                assert!(retries[0].work_status.load(Ordering::Acquire) == DELETE_MARKER_DURABLE);
+            } else {
+                assert!(releases == 1 && unsafe { R_SECTOR[0] } == sector && unsafe { R_COUNT[0] } == 1, "exactly this extent (one block for a 2-byte key and 3-byte value)");
+                if !already_marked {
+                    assert!(unsafe { R_AFTER_SCRUB[0] }, "hand-back only after the markers are durable");
+                }
+                if unsafe { R_OK[0] } {
+                    assert!(r.is_ok() && retries.is_empty() && released == 1, "handed back once and forgotten");
+                    assert!(stats.disk_usage.load(Ordering::Relaxed) == (1u64 << 40) - FEOX_BLOCK_SIZE as u64);
+                } else {
+                    assert!(r.is_err() && retries.len() == 1 && released == 0, "failed hand-back: kept for retry");
+                    assert!(retries[0].work_status.load(Ordering::Acquire) == DELETE_MARKER_DURABLE, "and remembered as marked, so the markers are not rewritten");
+                }
+            }
+        }
+        kani::cover!(releases == 1 && r.is_ok());
+        kani::cover!(scrubs == 1 && r.is_err());
+        kani::cover!(already_marked && releases == 1);
+        kani::cover!(sector != 0 && !succ_ok);
+        std::mem::forget(pin);
+        std::mem::forget(retries);
+        std::mem::forget(r);
+        std::mem::forget(io);
+        std::mem::forget(fs);
+    }
+
+    // (retirement_main_path) One retired generation through process_deletions: its extent goes back to the free pool at
+    // most once, only after its markers are durable (journaled retirement returned Ok), never while
+    // a reader pins it, and never before a successor is durable.
+    #[kani::proof]
+    #[kani::unwind(4)]
+    #[kani::stub(core::slice::sort::unstable::sort, stub_sort2)]
+    #[kani::stub(FreeSpaceManager::release_sectors, stub_release_sectors)]
+    #[kani::stub(DiskIO::retire_extents, stub_retire_extents)]
+    #[kani::stub(Record::successor_is_durable_or_deleted, stub_successor_ok)]
+    #[kani::stub(std::io::_eprint, stub_eprint)]
+    #[kani::stub(parking_lot::RawRwLock::lock_shared_slow, pl_lock_shared_slow)]
+    #[kani::stub(parking_lot::RawRwLock::lock_exclusive_slow, pl_lock_exclusive_slow)]
+    #[kani::stub(parking_lot::RawRwLock::unlock_shared_slow, pl_unlock_shared_slow)]
+    #[kani::stub(parking_lot::RawRwLock::unlock_exclusive_slow, pl_unlock_exclusive_slow)]
+    #[kani::stub(parking_lot::RawMutex::lock_slow, pl_mutex_lock_slow)]
+    #[kani::stub(parking_lot::RawMutex::unlock_slow, pl_mutex_unlock_slow)]
+    fn retirement_main_path() {
+        let sector: u64 = kani::any();
+        kani::assume(sector >= 16 && sector < (1u64 << 28));
+        retirement_case(sector, false, false, true, kani::any());
+    }
+
+    // (retirement_gates) One retired generation through process_deletions: its extent goes back to the free pool at
+    // most once, only after its markers are durable (journaled retirement returned Ok), never while
+    // a reader pins it, and never before a successor is durable.
+    #[kani::proof]
+    #[kani::unwind(4)]
+    #[kani::stub(core::slice::sort::unstable::sort, stub_sort2)]
+    #[kani::stub(FreeSpaceManager::release_sectors, stub_release_sectors)]
+    #[kani::stub(DiskIO::retire_extents, stub_retire_extents)]
+    #[kani::stub(Record::successor_is_durable_or_deleted, stub_successor_ok)]
+    #[kani::stub(std::io::_eprint, stub_eprint)]
+    #[kani::stub(parking_lot::RawRwLock::lock_shared_slow, pl_lock_shared_slow)]
+    #[kani::stub(parking_lot::RawRwLock::lock_exclusive_slow, pl_lock_exclusive_slow)]
+    #[kani::stub(parking_lot::RawRwLock::unlock_shared_slow, pl_unlock_shared_slow)]
+    #[kani::stub(parking_lot::RawRwLock::unlock_exclusive_slow, pl_unlock_exclusive_slow)]
+    #[kani::stub(parking_lot::RawMutex::lock_slow, pl_mutex_lock_slow)]
+    #[kani::stub(parking_lot::RawMutex::unlock_slow, pl_mutex_unlock_slow)]
+    fn retirement_gates() {
+        let sector: u64 = kani::any();
+        kani::assume(sector == 0 || (sector >= 16 && sector < (1u64 << 28)));
+        let succ_ok: bool = kani::any();
+        let readers: bool = kani::any();
+        kani::assume(sector == 0 || !succ_ok || readers);
+        retirement_case(sector, false, readers, succ_ok, true);
+    }
+
+    // (retirement_already_marked) One retired generation through process_deletions: its extent goes back to the free pool at
+    // most once, only after its markers are durable (journaled retirement returned Ok), never while
+    // a reader pins it, and never before a successor is durable.
+    #[kani::proof]
+    #[kani::unwind(4)]
+    #[kani::stub(core::slice::sort::unstable::sort, stub_sort2)]
+    #[kani::stub(FreeSpaceManager::release_sectors, stub_release_sectors)]
+    #[kani::stub(DiskIO::retire_extents, stub_retire_extents)]
+    #[kani::stub(Record::successor_is_durable_or_deleted, stub_successor_ok)]
+    #[kani::stub(std::io::_eprint, stub_eprint)]
+    #[kani::stub(parking_lot::RawRwLock::lock_shared_slow, pl_lock_shared_slow)]
+    #[kani::stub(parking_lot::RawRwLock::lock_exclusive_slow, pl_lock_exclusive_slow)]
+    #[kani::stub(parking_lot::RawRwLock::unlock_shared_slow, pl_unlock_shared_slow)]
+    #[kani::stub(parking_lot::RawRwLock::unlock_exclusive_slow, pl_unlock_exclusive_slow)]
+    #[kani::stub(parking_lot::RawMutex::lock_slow, pl_mutex_lock_slow)]
+    #[kani::stub(parking_lot::RawMutex::unlock_slow, pl_mutex_unlock_slow)]
+    fn retirement_already_marked() {
+        let sector: u64 = kani::any();
+        kani::assume(sector >= 16 && sector < (1u64 << 28));
+        retirement_case(sector, true, kani::any(), kani::any(), true);
+    }
+
 }
